@@ -98,33 +98,61 @@ Proof.
   destruct (backoff c BoBusy s) as [[s' e]|] eqn:B; auto. apply backoff_frame in B as (_ & _ & _ & _ & sl & ->). auto.
 Qed.
 
+Lemma proxy_next_via s p : proxy_next s = PxVia p -> p <> leader s /\ att_at s p < 1.
+Proof.
+  unfold proxy_next. cbv zeta. destruct (is_reachable _ || _); [discriminate|].
+  destruct (find _ _) as [q|] eqn:F; [|discriminate]. intros H; injection H as <-.
+  apply find_some in F as [_ F]. unfold proxy_cand, exhausted in F. repeat (apply andb_prop in F as [F ?]).
+  split.
+  - intros ->. rewrite Nat.eqb_refl in F. discriminate.
+  - match goal with X : negb (1 <=? _) = true |- _ => apply negb_true_iff, Nat.leb_gt in X; now rewrite att_at_rep in X end.
+Qed.
+
 Lemma sel_phase_spec c s :
   match sel_phase c s with
-  | SSent s' t evs => room s' + 1 = room s /\ n_attempts evs = 0 /\ n_rearms evs = 0
+  | SSent s' t evs => room s' + 1 <= room s /\ n_attempts evs = 0 /\ n_rearms evs = 0
   | SDone _ evs => n_attempts evs = 0 /\ n_rearms evs = 0
   end.
 Proof.
-  assert (NC : forall s0, match no_candidate c s0 with SSent s' t evs => room s' + 1 = room s /\ n_attempts evs = 0 /\ n_rearms evs = 0
+  assert (NC : forall s0, match no_candidate c s0 with SSent s' t evs => room s' + 1 <= room s /\ n_attempts evs = 0 /\ n_rearms evs = 0
                           | SDone _ evs => n_attempts evs = 0 /\ n_rearms evs = 0 end).
   { intros s0. pose proof (no_candidate_spec c s0). destruct (no_candidate c s0); tauto. }
   unfold sel_phase. cbv zeta.
   match goal with |- context [match ?e with Some _ => _ | None => _ end] => destruct e as [s0|] eqn:G end; [|apply NC].
   assert (E0 : atts s0 = atts s).
   { destruct (inv_retry s); [inversion G; atts_norm; reflexivity|]. destruct (valid s); inversion G; reflexivity. }
-  set (s1 := set_sel_attempts (sat3 (S (sel_attempts s0))) s0).
+  set (s1 := set_proxy None (set_sel_attempts (sat3 (S (sel_attempts s0))) s0)).
   assert (E1 : atts s1 = atts s) by (subst s1; atts_norm; assumption).
+  destruct (if rt_eqb (rt s1) RTLeader && c_fw c then proxy_next s1 else PxLeaderOnly) as [|p|] eqn:PX; [| |apply NC].
+  2: { assert (PV : proxy_next s1 = PxVia p) by (destruct (rt_eqb (rt s1) RTLeader && c_fw c); [assumption|discriminate]).
+       apply proxy_next_via in PV as [Pne Patt].
+       destruct (stale (rep_at s1 (leader s1)) || stale (rep_at s1 p)); [apply NC|].
+       set (sa := upd_rep (leader s1) (fun r => set_attempts (S (attempts r)) r) (set_proxy (Some p) s1)).
+       assert (Ra : room sa <= room s1) by (subst sa; unfold room, atts at 1, upd_rep; cbn [reps set_reps set_proxy]; apply room_upd_inc_le).
+       assert (Pa : att_at sa p = att_at s1 p).
+       { subst sa. unfold att_at, atts at 1, upd_rep. cbn [reps set_reps set_proxy]. apply nth_upd_other. congruence. }
+       set (s3 := upd_rep p (fun r => set_attempts (S (attempts r)) r) sa).
+       assert (R3 : room s3 + 1 <= room s).
+       { assert (room s3 + 1 = room sa); [|unfold room in *; rewrite <- E1; unfold room in Ra; fold (atts s1); lia].
+         subst s3. unfold room, atts at 1, upd_rep. cbn [reps set_reps]. apply room_upd_inc. fold (atts sa). fold (att_at sa p).
+         rewrite Pa. unfold max_replica_attempt. lia. }
+       destruct (pending (rep_at s3 (leader s1))).
+       - destruct (backoff c BoBusy _) as [[s4 e]|] eqn:B; [|auto].
+         apply backoff_frame in B as (Hr & _ & _ & _ & sl & ->). split; [|auto].
+         assert (room s4 = room s3); [|lia]. unfold room, atts. rewrite Hr. fold (atts (upd_rep (leader s1) (set_pending false) s3)). atts_norm. reflexivity.
+       - auto. }
   destruct (if rt_eqb (rt s1) RTLeader then next_leader c s1 else next_mixed c s1) as [tg s2] eqn:N.
   assert (OK : sel_ok s1 tg s2) by (destruct (rt_eqb (rt s1) RTLeader); [eapply next_leader_ok | eapply next_mixed_ok]; eassumption).
   destruct tg as [t|]; [|apply NC].
   destruct (stale (rep_at s2 t)); [apply NC|].
   destruct OK as [E2 A]. specialize (A t eq_refl).
   set (s3 := upd_rep t (fun r => set_attempts (S (attempts r)) r) s2).
-  assert (R3 : room s3 + 1 = room s).
-  { subst s3. unfold room, atts at 1, upd_rep. cbn [reps set_reps]. rewrite <- E1, <- E2. apply room_upd_inc.
+  assert (R3 : room s3 + 1 <= room s).
+  { apply Nat.eq_le_incl. subst s3. unfold room, atts at 1, upd_rep. cbn [reps set_reps]. rewrite <- E1, <- E2. apply room_upd_inc.
     fold (atts s2). rewrite E2. exact A. }
   destruct (pending (rep_at s3 t)).
   - destruct (backoff c BoBusy _) as [[s4 e]|] eqn:B; [|auto].
     apply backoff_frame in B as (Hr & _ & _ & _ & sl & ->). split; [|auto].
-    rewrite <- R3. f_equal. unfold room, atts. rewrite Hr. fold (atts (upd_rep t (set_pending false) s3)). atts_norm. reflexivity.
+    assert (room s4 = room s3); [|lia]. unfold room, atts. rewrite Hr. fold (atts (upd_rep t (set_pending false) s3)). atts_norm. reflexivity.
   - auto.
 Qed.
